@@ -10,6 +10,8 @@ package main
 // IdleConnTimeout; long: both pass), with margins of ≥ 20 ticks around every threshold.
 
 import (
+	"bytes"
+	"context"
 	"encoding/binary"
 	"fmt"
 	"io"
@@ -577,7 +579,27 @@ func runPoolScenario(sc poolScenario) *poolResult {
 			e.mu.Unlock()
 		case "finish":
 			e.syncTick()
+			e.mu.Lock()
+			_, isStream := e.openStreams[atoi(f[1])]
+			e.mu.Unlock()
 			ok = e.finishCall(atoi(f[1]))
+			if isStream && ok {
+				// a stream is closed without the Transport seeing it: its connection keeps its old stamp
+				// and may be due at the very next housekeeping pass; let three passes go by (the model
+				// does the same) so that the observation does not race with them
+				dl := time.Now().Add(2 * time.Second)
+				for time.Now().Before(dl) {
+					e.mu.Lock()
+					d := e.calls[atoi(f[1])].done
+					e.mu.Unlock()
+					if d {
+						break
+					}
+					time.Sleep(100 * time.Microsecond)
+				}
+				e.syncTick()
+				nominal += 3 * poolTick
+			}
 		case "kill":
 			e.syncTick()
 			e.mu.Lock()
@@ -907,6 +929,8 @@ func poolCorpus() []poolScenario {
 	mk("close-with-several-idle-2", 2, 2, "long A 1", "long A 2", "long B 3", "long B 4", "finish 1", "finish 2", "finish 3", "finish 4", "idle medium", "close")
 	mk("multi-addr", 2, 1, "call A 1", "call B 2", "call C 3", "long A 4", "long A 5", "long B 6", "kill B", "call B 7", "finish 4", "finish 5", "idle medium", "revive B", "call B 8", "call A 9", "idle long", "close", "close")
 	mk("close-gated-replacement", 1, 1, "call A 1", "kill A", "revive A", "holdclose", "callnb A 2", "callnb A 3", "relclose", "call A 4")
+	mk("monitor:ctx-sibling-1", 1, 1, "ctx")
+	mk("monitor:ctx-sibling-3", 1, 1, "ctx", "ctx", "ctx")
 	mk("forms", 2, 2, "go A 1", "rt A 2", "ping A 3", "call A 4", "kill A", "go A 5", "rt A 6", "ping A 7", "revive A", "go A 8", "rt A 9", "ping A 10", "call A 11")
 	return out
 }
@@ -988,7 +1012,103 @@ func poolScenarios(seed uint64, tier string) []poolScenario {
 	return scs
 }
 
+// ctxSibling is a monitor-only scenario (no model): on a one-connection transport a call is
+// outstanding when a CallWithContext on the same connection runs into its deadline; the sibling
+// must still complete with its own reply when the server answers, the late answer to the
+// abandoned call must change nothing, and the connection must stay in service (C19).
+func ctxSibling(i int, sc poolScenario, timeouts int) *scenarioOut {
+	out := &scenarioOut{Counters: map[string]int{"monitor_only.ctx_sibling": 1}}
+	e := newPoolEnv(sc)
+	e.up["A"] = true
+	var bad []string
+	waitFor := func(cond func() bool) bool {
+		dl := time.Now().Add(3 * time.Second)
+		for time.Now().Before(dl) {
+			e.mu.Lock()
+			ok := cond()
+			e.mu.Unlock()
+			if ok {
+				return true
+			}
+			time.Sleep(200 * time.Microsecond)
+		}
+		return false
+	}
+	e.startCall(1, "A", "call", true)
+	if !waitFor(func() bool { return e.calls[1].carried }) {
+		bad = append(bad, "the first call never reached the server")
+	}
+	for j := 0; j < timeouts && len(bad) == 0; j++ {
+		k := 10 + j
+		e.mu.Lock()
+		e.holdCall[k] = true
+		e.mu.Unlock()
+		args := mkArgs(k, 24, 16, byte(k))
+		reply := new([]byte)
+		ctx, cancel := context.WithTimeout(context.Background(), 15*time.Millisecond)
+		t0 := time.Now()
+		err := e.t.CallWithContext(ctx, "A", "S.M", &args, reply)
+		cancel()
+		if err != context.DeadlineExceeded {
+			bad = append(bad, fmt.Sprintf("abandoned call %d: returned %v, not the context's error", k, err))
+		} else if d := time.Since(t0); d > 2*time.Second {
+			bad = append(bad, fmt.Sprintf("abandoned call %d: returned after %v", k, d))
+		}
+	}
+	if len(bad) == 0 {
+		e.mu.Lock()
+		done1 := e.calls[1].done
+		err1 := e.calls[1].err
+		e.mu.Unlock()
+		if done1 {
+			bad = append(bad, fmt.Sprintf("the sibling call ended (%v) when another call on its connection ran into its deadline", err1))
+		}
+	}
+	if len(bad) == 0 {
+		// late answers to the abandoned calls first, then the sibling's
+		for j := 0; j < timeouts; j++ {
+			e.finishCall(10 + j)
+		}
+		e.finishCall(1)
+		if !waitFor(func() bool { return e.calls[1].done }) {
+			bad = append(bad, "the sibling call never completed after the server answered it")
+		} else {
+			e.mu.Lock()
+			pc := e.calls[1]
+			want := serverReply("A", mkArgs(1, 24, 16, 1))
+			if pc.err != nil || !bytes.Equal(pc.reply, want) {
+				bad = append(bad, fmt.Sprintf("the sibling call ended with err=%v reply-matches=%v", pc.err, bytes.Equal(pc.reply, want)))
+			}
+			e.mu.Unlock()
+		}
+	}
+	if len(bad) == 0 {
+		e.startCall(2, "A", "call", false)
+		if !waitFor(func() bool { return e.calls[2].done }) {
+			bad = append(bad, "a call after the abandoned ones never completed")
+		} else {
+			e.mu.Lock()
+			if e.calls[2].err != nil {
+				bad = append(bad, fmt.Sprintf("a call after the abandoned ones failed: %v", e.calls[2].err))
+			}
+			if e.dials != 1 {
+				bad = append(bad, fmt.Sprintf("%d connections were dialled: a deadline made the transport give up a healthy connection", e.dials))
+			}
+			e.mu.Unlock()
+		}
+	}
+	for _, b := range bad {
+		out.Violations = append(out.Violations, rep.Violation{Property: "C19", Monitor: "a deadline on one call harms no other call of the pooled connection", Key: "C19/deadline-harms-sibling/pool", What: b,
+			Replay: map[string]interface{}{"component": "pool", "index": i, "scenario": sc, "abandoned_calls": timeouts}})
+	}
+	e.finish()
+	return out
+}
+
 func runOnePool(i int, sc poolScenario) *scenarioOut {
+	if strings.HasPrefix(sc.Name, "monitor:ctx-sibling") {
+		return ctxSibling(i, sc, len(sc.Actions))
+	}
 	res := runPoolScenario(sc)
 	retries := 0
 	timed := !strings.Contains(strings.Join(sc.Actions, " "), "holdclose")
